@@ -184,6 +184,7 @@ Touches(k) == CASE k = "plasma_ray" -> {"pm"}
                 [] k = "beam_ray" -> {"pm", "bm", "att"}
                 [] k = "laser_ray" -> {"pm", "bm", "att"}
                 [] k = "beam_density" -> {"att"}
+                [] k = "all" -> {"pm", "bm", "att"}          \* every sight line and the beam density at once
                 [] OTHER -> {}
 ObserveCore(k) ==
     /\ filled' = [c \in Caches |-> filled[c] \/ c \in Touches(k)]
